@@ -117,8 +117,11 @@ var props = map[string]propSpec{
 		{Pkg: "protocol", Fn: "VerifC15WriteSet", Loop: 24, Validate: 8, MustReach: []string{"end"}, ShardBits: 4},
 	}, Assumptions: with("reduced claim: write-set isolation only; interleavings and data races are not decided"), Explanation: "write-set isolation of one handshake over symbolic len/cap of the option slice"},
 	"C16": {Harnesses: []harnessSpec{
-		{Pkg: "protocol", Fn: "VerifC16Protos", Validate: 8},
-	}, Assumptions: with(), Explanation: "reported client protocol list vs offered list"},
+		{Pkg: "protocol", Fn: "VerifC16Protos", Validate: 8, MustReach: []string{"end"}},
+		{Pkg: "protocol", Fn: "VerifC16ConnHonest", Validate: 8, MustReach: []string{"end"}, ShardBits: 2},
+		{Pkg: "protocol", Fn: "VerifC16ConnForged", Validate: 8, MustReach: []string{"accepted", "rejected"}},
+	}, Assumptions: with("TLS handshake contract model (DESIGN 3.5)", "client state is a one-field struct with an arbitrary string value (structpb reflection helpers are not encoded)"),
+		Explanation: "trimmed protocol list on 3 arbitrary ALPN strings; end to end through the node's own ClientConfigs and the listener's Accept: reported list = offered list minus the preference entry (any position), returned as a copy; client state equal to what the node supplied and delivered only for a genuine signature"},
 	"C17": {Harnesses: []harnessSpec{
 		{Pkg: "net", Fn: "VerifC17Routing", Validate: 0},
 	}, Assumptions: with(), Explanation: "SplitListener routing under the coroutine scheduler"},
